@@ -339,9 +339,12 @@ impl<K: CacheKey + 'static> DiskCache<K> {
                 .truncate(true)
                 .open(&temp_path)
                 .map_err(CacheError::Io)?;
+            #[cfg(feature = "verif-hooks")] crate::verif_hooks::crash_point("disk.write.after_create", Some(&temp_path));
 
             file.write_all(data).map_err(CacheError::Io)?;
+            #[cfg(feature = "verif-hooks")] crate::verif_hooks::crash_point("disk.write.after_write", Some(&temp_path));
             file.flush().map_err(CacheError::Io)?;
+            #[cfg(feature = "verif-hooks")] crate::verif_hooks::crash_point("disk.write.after_flush", Some(&temp_path));
 
             // Force data to disk for durability in cache operations
             #[cfg(unix)]
@@ -353,11 +356,13 @@ impl<K: CacheKey + 'static> DiskCache<K> {
                 unsafe {
                     libc::fsync(file.as_raw_fd());
                 }
+                #[cfg(feature = "verif-hooks")] crate::verif_hooks::crash_point("disk.write.after_sync", None);
             }
         }
 
         // Atomic rename
         fs::rename(&temp_path, path).map_err(CacheError::Io)?;
+        #[cfg(feature = "verif-hooks")] crate::verif_hooks::crash_point("disk.write.after_rename", None);
 
         Ok(())
     }
